@@ -161,6 +161,10 @@ func famOpts(fam string, d, p int) ([]rs.Option, error) {
 	if strings.Contains(fam, "+") { // a+b+c: the matrix options in this order (each one resets the others: the last wins)
 		var all []rs.Option
 		for _, part := range strings.Split(fam, "+") {
+			if part == "xor" { // WithFastOneParityMatrix next to a matrix family: it only takes effect for one parity shard
+				all = append(all, rs.WithFastOneParityMatrix())
+				continue
+			}
 			o, err := famOpts(part, d, p)
 			if err != nil {
 				return nil, err
